@@ -41,7 +41,8 @@ class StubRule:
         return _Stub(values)
 
 
-def build(case) -> Built:
+def build(case, reuse=None) -> Built:
+    """reuse = {element index: an element object from an earlier life} (a gear train kept while the drive is changed)"""
     import gearpy.utils as gu
     from gearpy.powertrain import Powertrain
     b = Built()
@@ -50,7 +51,8 @@ def build(case) -> Built:
     specs = b.model.elements
     names = [s.get('name') or f'{s["type"]}{i}' for i, s in enumerate(specs)]
     b.names = names
-    b.elements = [B.make_element(s, names[i]) for i, s in enumerate(specs)]
+    reuse = reuse or {}
+    b.elements = [reuse[i] if i in reuse else B.make_element(s, names[i] + ('b' if reuse else '')) for i, s in enumerate(specs)]
     for i in range(1, len(specs)):
         link = specs[i]['link']
         if link['kind'] == 'joint':
